@@ -538,6 +538,23 @@ func errorHandled(m *model.Model, sc *model.SC, call *ast.CallExpr, errIdx, nres
 				ifs.Else = y.Else
 			}
 		case *ast.CaseClause:
+			// switch err { case nil: success…; default / other values: failure }: the `case nil` clause plays the part of
+			// `if err == nil`, the remaining clauses that of its else branch
+			if sw, ok := m.Parent(p, m.Parent(p, y)).(*ast.SwitchStmt); ok && sw.Tag != nil && len(y.List) == 1 {
+				tagID, isTag := ast.Unparen(sw.Tag).(*ast.Ident)
+				nilID, isNil := ast.Unparen(y.List[0]).(*ast.Ident)
+				if isTag && isNil && objOf(info, tagID) == errVar {
+					if _, n := info.Uses[nilID].(*types.Nil); n {
+						var rest []ast.Stmt
+						for _, cl := range sw.Body.List {
+							if cc, ok := cl.(*ast.CaseClause); ok && cc != y {
+								rest = append(rest, cc.Body...)
+							}
+						}
+						ifs = &ifLike{&ast.BinaryExpr{X: sw.Tag, OpPos: y.Pos(), Op: token.EQL, Y: y.List[0]}, &ast.BlockStmt{Lbrace: y.Colon, List: y.Body, Rbrace: y.End()}, &ast.BlockStmt{Lbrace: sw.Body.Lbrace, List: rest, Rbrace: sw.Body.Rbrace}}
+					}
+				}
+			}
 			if sw, ok := m.Parent(p, m.Parent(p, y)).(*ast.SwitchStmt); ok && sw.Tag == nil && len(y.List) == 1 {
 				// the other clauses play the part of the else branch
 				var rest []ast.Stmt
